@@ -13,7 +13,7 @@ from . import c02
 PROP = "C11"
 RUN = "Run_C11"
 THEOREMS = "Props/C11.v"
-ANCHORS = [("pipefunc/_pipeline/_base.py", ["Pipeline.subpipeline", "_find_nodes_between", "Pipeline.node_mapping",
+ANCHORS = [("pipefunc/_pipeline/_base.py", ["Pipeline.subpipeline", "_find_nodes_between", "_find_required_nodes", "Pipeline.node_mapping",
                                             "Pipeline.graph", "Pipeline.topological_generations", "Pipeline.leaf_nodes",
                                             "Pipeline.defaults", "Pipeline.drop"]),
            ("pipefunc/map/_prepare.py", ["prepare_run", "_validate_complete_inputs"]),
@@ -30,7 +30,7 @@ RULE = ("the pipelines of C02 plus extra nullary / all-default / all-bound funct
         "non-trivial = >= 2 functions; distinct by (kind, pipeline, I, S)")
 ASSUMPTIONS = list(c02.ASSUMPTIONS) + ["pipelines without MapSpecs (scalar values); storage='dict'; parallel=False",
                                        "call order inside Pipeline.map is not compared (the property speaks of the set of calls)"]
-TRUSTED = ["Model/SubPipe.v mirrors Pipeline.subpipeline/_find_nodes_between/prepare_run/run_map (scalar case) by hand; "
+TRUSTED = ["Model/SubPipe.v mirrors Pipeline.subpipeline/_find_nodes_between/_find_required_nodes/prepare_run/run_map (scalar case) by hand; "
            "tie = per-run differential execution", "Base/Graph.v vs networkx (checked under C02)"]
 
 
@@ -308,37 +308,7 @@ def _analysis(c):
             continue
         needed.add(f["name"])
         stack += [cur for cur, _ in f["params"] if cur not in f["bound"] and cur not in I and cur in prod]
-    # graph edges node -> function (nodes: function names, root-argument names)
-    succ = {}
-    for f in funcs:
-        for cur, _ in f["params"]:
-            if cur in f["bound"]:
-                continue
-            succ.setdefault(prod.get(cur, cur), set()).add(f["name"])
-    pred = {}
-    for a, bs in succ.items():
-        for b in bs:
-            pred.setdefault(b, set()).add(a)
-
-    def reach(start, nxt):
-        seen, st = set(), list(start)
-        while st:
-            for y in nxt.get(st.pop(), ()):
-                if y not in seen:
-                    seen.add(y)
-                    st.append(y)
-        return seen
-
-    in_nodes = {prod.get(n, n) for n in I}
-    out_nodes = {prod[o] for o in S if o in prod}
-    desc = set()
-    for n in in_nodes:
-        desc |= reach([n], succ) - {n}
-    anc = set(out_nodes)
-    for n in out_nodes:
-        anc |= reach([n], pred) - {n}
-    kept = {f["name"] for f in funcs if f["name"] in desc and f["name"] in anc}
-    return I, S, byname, prod, needed, kept
+    return I, S, byname, prod, needed
 
 
 def _is_err(impl_obs):
@@ -347,11 +317,12 @@ def _is_err(impl_obs):
 
 def finding_id(c, impl_obs, kind):
     """Known-finding class of a FAILING case, decided from the case structure: the id is returned only when the
-    mechanism of that finding is what makes THIS request fail.  All known findings concern requests that are
-    computable from the provided names; an uncomputable request that is answered, or a wrong value, is never known."""
+    mechanism of that finding is what makes THIS request fail.  Both known findings are REFUSALS of requests that
+    are computable from the provided names; an uncomputable request that is answered, a wrong value, or a
+    sub-pipeline / call set that is not exactly the needed one is never known."""
     if c["kind"] == "map2":
         return None                      # stale or wrong values are never known
-    I, S, byname, prod, needed, kept = _analysis(c)
+    I, S, byname, prod, needed = _analysis(c)
     funcs = c["p"]["funcs"]
     if c["S"] is None and c.get("auto"):
         return None                      # only wrong values can fail there
@@ -360,61 +331,25 @@ def finding_id(c, impl_obs, kind):
     alld = {cur for f in funcs for cur, _v in pipegen.func_defaults(f) if cur not in f["bound"] and cur not in prod}
     computable = all(cur in f["bound"] or cur in I or cur in prod or cur in alld
                      for n in needed for f in [byname[n]] for cur, _ in f["params"])
-    if not computable:
-        return None                      # must be rejected; an answer is a genuine violation
-    if not _is_err(impl_obs):
-        # accepted, but not with exactly the needed work (or with wrong values)
-        ok_funcs = None
-        if c["kind"] == "sub" and isinstance(impl_obs, list) and impl_obs and impl_obs[0] == "ok":
-            ok_funcs = set(impl_obs[1])
-            first_out = {f["name"]: f["outs"][0] for f in funcs}
-            if ok_funcs == {first_out[n] for n in kept} and kept - needed and needed <= kept:
-                return "c11-cutoff-producer-kept"
-        return None
+    if not computable or not _is_err(impl_obs):
+        return None                      # an answer to an uncomputable request / a wrong answer is a genuine violation
     # a computable request was refused: replay the checks of subpipeline / prepare_run and name the cause
-    cur = list(funcs)
-    for f in [g for g in funcs if g["name"] not in kept]:          # the drop loop validates after every drop
-        cur = [g for g in cur if g["name"] != f["name"]]
-        outs_now = {o for g in cur for o in g["outs"]}
-        seen = {}
-        for g in cur:
-            for k, v in pipegen.func_defaults(g):
-                if k in g["bound"] or k in outs_now:
-                    continue
-                if seen.setdefault(k, v) != v:
-                    return "c11-drop-loop-inconsistent-defaults"
-    kept_outs = {o for n in kept for o in byname[n]["outs"]}
-    if any(o not in kept_outs for o in S):                          # a requested output did not survive
-        return "c11-needed-without-provided-ancestor" if needed - kept else None
-    defaults_kept = {k for n in kept for k, _v in pipegen.func_defaults(byname[n])
-                     if k not in byname[n]["bound"] and k not in kept_outs}
-    with_defaults = defaults_kept & alld
-    new_roots = {cur for n in kept for cur, _ in byname[n]["params"]
-                 if cur not in byname[n]["bound"] and cur not in kept_outs}
-    missing = new_roots - with_defaults - I
-    if missing:
-        causes = set()
-        for m in missing:
-            readers = {n for n in kept if any(cur == m and cur not in byname[n]["bound"] for cur, _ in byname[n]["params"])}
-            if m in prod and prod[m] in needed and readers & needed:
-                causes.add("c11-needed-without-provided-ancestor")      # its (needed) producer was dropped
-            elif readers and not (readers & needed):
-                causes.add("c11-cutoff-producer-kept")                   # only a cut-off function wants it
-            elif m not in prod and m in alld:
-                causes.add("c11-default-declared-by-dropped-function")
-            else:
-                causes.add(None)
-        for cid in ("c11-needed-without-provided-ancestor", "c11-cutoff-producer-kept",
-                    "c11-default-declared-by-dropped-function"):
-            if cid in causes and None not in causes:
-                return cid
-        return None
+    needed_outs = {o for n in needed for o in byname[n]["outs"]}
+    seen = {}
+    for g in funcs:                                                 # Pipeline._validate of the sub-pipeline
+        if g["name"] not in needed:
+            continue
+        for k, v in pipegen.func_defaults(g):
+            if k in g["bound"] or k in needed_outs:
+                continue
+            if seen.setdefault(k, v) != v and k in prod:            # a provided intermediate name, producer cut off
+                return "c11-inconsistent-dead-defaults"
     if c["kind"] == "map":                                          # _validate_complete_inputs: extra inputs
-        extra = I - new_roots
-        for m in sorted(extra):
-            if m in prod and prod[m] in kept:
-                return ("c11-map-rejects-supplied-output-of-kept-function" if prod[m] in needed
-                        else "c11-cutoff-producer-kept")
+        new_roots = {cur for n in needed for cur, _ in byname[n]["params"]
+                     if cur not in byname[n]["bound"] and cur not in needed_outs}
+        for m in sorted(I - new_roots):
+            if m in prod and prod[m] in needed:
+                return "c11-map-rejects-supplied-output-of-kept-function"
     return None
 
 
